@@ -17,6 +17,7 @@ import (
 	"cosmossdk.io/collections"
 	sdkmath "cosmossdk.io/math"
 	"github.com/cosmos/cosmos-sdk/client"
+	"github.com/cosmos/cosmos-sdk/codec"
 	codectypes "github.com/cosmos/cosmos-sdk/codec/types"
 	sdk "github.com/cosmos/cosmos-sdk/types"
 	authtypes "github.com/cosmos/cosmos-sdk/x/auth/types"
@@ -25,9 +26,12 @@ import (
 	govtypes "github.com/cosmos/cosmos-sdk/x/gov/types"
 	govv1 "github.com/cosmos/cosmos-sdk/x/gov/types/v1"
 	stakingtypes "github.com/cosmos/cosmos-sdk/x/staking/types"
+	ibcexported "github.com/cosmos/ibc-go/v8/modules/core/exported"
+	ibctypes "github.com/cosmos/ibc-go/v8/modules/core/types"
 	"github.com/ethereum/go-ethereum/common"
 	ethcrypto "github.com/ethereum/go-ethereum/crypto"
 
+	"github.com/functionx/fx-core/v8/app"
 	"github.com/functionx/fx-core/v8/contract"
 	fxtypes "github.com/functionx/fx-core/v8/types"
 	crosschaintypes "github.com/functionx/fx-core/v8/x/crosschain/types"
@@ -90,6 +94,9 @@ type gen struct {
 	migFrom  detx.Key
 	migTo    detx.Key
 	outsider detx.Key
+	relayer  detx.Key
+	ibcStep  int       // next step of the channel handshake
+	relayQ   []sdk.Msg // relay messages for the next block
 
 	seq          map[string]uint64
 	pend         []pendingTx
@@ -163,6 +170,8 @@ func newGen(seed int64, out *hx.Out) *gen {
 	g.migFrom = detx.CosmosKey(seed, "migrate-from")
 	g.migTo = detx.EthKey(seed, "migrate-to")
 	g.outsider = detx.CosmosKey(seed, "outsider")
+	g.relayer = detx.CosmosKey(seed, "relayer")
+	accs = append(accs, detx.AccSpec{Addr: g.relayer.Acc(), Coins: sdk.NewCoins(fx(100_000))})
 	accs = append(accs, detx.AccSpec{Addr: g.migFrom.Acc(), Coins: sdk.NewCoins(fx(5_000))})
 	accs = append(accs, detx.AccSpec{Addr: g.outsider.Acc(), Coins: sdk.NewCoins(fx(300_000))})
 	g.fxToken = ethcrypto.PubkeyToAddress(detx.ECDSA(seed, "fx-token").PublicKey).Hex()
@@ -176,7 +185,23 @@ func newGen(seed int64, out *hx.Out) *gen {
 		g.tokens = append(g.tokens, tk)
 	}
 
-	gd := detx.BuildGenesis(detx.GenesisSpec{ChainID: chainID, TimeUnix: genesisUnix, Vals: g.vals, Accounts: accs})
+	gd := detx.BuildGenesis(detx.GenesisSpec{ChainID: chainID, TimeUnix: genesisUnix, Vals: g.vals, Accounts: accs,
+		Mutate: func(cdc codec.Codec, gs app.GenesisState) {
+			// the built-in loopback client is an allowed client (ibc client parameter), so that a transfer channel pair can
+			// be opened over `connection-localhost` with real handshake messages
+			var ibcGen ibctypes.GenesisState
+			cdc.MustUnmarshalJSON(gs[ibcexported.ModuleName], &ibcGen)
+			has := false
+			for _, c := range ibcGen.ClientGenesis.Params.AllowedClients {
+				if c == ibcexported.Localhost {
+					has = true
+				}
+			}
+			if !has {
+				ibcGen.ClientGenesis.Params.AllowedClients = append(ibcGen.ClientGenesis.Params.AllowedClients, ibcexported.Localhost)
+			}
+			gs[ibcexported.ModuleName] = cdc.MustMarshalJSON(&ibcGen)
+		}})
 	c, err := detx.NewChain(gd)
 	if err != nil {
 		panic(err)
@@ -377,6 +402,10 @@ func (g *gen) ethTx(k detx.Key, kind, bad string, to *common.Address, value *big
 
 // endBlock shuffles nothing (order is part of the history), executes the block on the parent instance and records it.
 func (g *gen) endBlock(dt time.Duration, note string) detx.Obs {
+	if g.c.Height > 0 {
+		g.ibcHandshake()
+		g.flushRelay()
+	}
 	for k := g.rng.Intn(3); k > 0 && g.c.Height > 0; k-- { // background traffic
 		from := g.anyUser()
 		switch g.rng.Intn(4) {
@@ -418,6 +447,7 @@ func (g *gen) endBlock(dt time.Duration, note string) detx.Obs {
 		}
 	}
 	g.inj, g.injKind = nil, nil
+	g.relayFrom(o.TxResults)
 	g.hist.Blocks = append(g.hist.Blocks, b)
 	g.obs = append(g.obs, o)
 	g.lines = append(g.lines, blockLine(g.c, o))
@@ -649,6 +679,7 @@ func (g *gen) run() {
 		g.tx(g.oracles[i], &crosschaintypes.MsgBondedOracle{ChainName: "bsc", OracleAddress: g.oracles[i].Addr(), BridgerAddress: g.bridgers[i].Addr(),
 			ExternalAddress: g.ext[i], ValidatorAddress: g.valAddr(), DelegateAmount: fx(10_000 * int64(1+g.rng.Intn(2)))})
 	}
+	g.ibcTraffic(1 + g.rng.Intn(3))
 	g.endBlock(short, "empty")
 
 	// ---- phase 4: claims reaching quorum: bridge token, oracle set updated, send-to-fx
@@ -743,6 +774,7 @@ func (g *gen) run() {
 	data, err = stakingABI.Pack("delegateV2", g.valAddr(), fx(3).Amount.BigInt())
 	must(err)
 	g.eth(g.ethUser(), "staking.delegateV2(low-gas)", "", st, nil, 60_000, data)
+	g.ibcTraffic(1 + g.rng.Intn(3))
 	g.endBlock(short, "evm precompiles")
 
 	// ---- phase 6: power changes -> oracle set requests through the PowerDiff path
@@ -799,6 +831,7 @@ func (g *gen) run() {
 	data, err = ccABI.Pack("crossChain", common.Address{}, g.ext[0], amt, fee, target, "")
 	must(err)
 	g.eth(g.ethUser(), "crosschain.crossChain(value-mismatch)", "", cc, amt, 2_000_000, data)
+	g.ibcTraffic(1 + g.rng.Intn(3))
 	g.endBlock(short, "send-to-external")
 
 	// fee increase / cancellation of pooled transfers (both resolve the token of the pooled transaction again)
@@ -976,6 +1009,7 @@ func (g *gen) run() {
 	// ---- phase 9: after the toggle: conversions fail; signed window elapses: slashing of non-confirming oracles
 	cu := g.anyUser()
 	g.tx(cu, &erc20types.MsgConvertCoin{Coin: fx(1), Receiver: cu.Hex().Hex(), Sender: cu.Addr()})
+	g.ibcTraffic(1 + g.rng.Intn(3))
 	g.endBlock(short, "convert after toggle")
 	for k := 0; k < 7; k++ {
 		if k == 2 {
@@ -994,6 +1028,9 @@ func (g *gen) run() {
 		}
 		from := g.anyUser()
 		g.tx(from, banktypes.NewMsgSend(from.Acc(), g.anyUser().Acc(), sdk.NewCoins(fxFrac(int64(1+g.rng.Intn(99))))))
+		if k%2 == 1 {
+			g.ibcTraffic(1)
+		}
 		g.endBlock(short, "signed window / slashing")
 	}
 	g.endBlock(22*day, "unbonding period elapses")
@@ -1021,6 +1058,39 @@ func (g *gen) run() {
 			}
 		}
 	}
+	g.endBlock(short, "unbonded oracles / erc20 conversions")
+
+	// ---- phase 10: a passed proposal whose message handler PANICS in the gov end blocker: a first proposal overwrites the
+	// erc20 parameters with bytes the keeper cannot decode (the real MsgUpdateStore route), a second, perfectly valid
+	// MsgRegisterCoin proposal of the same block then panics in GetEnableErc20; the recovered error becomes the failed
+	// reason of the proposal (state) and the proposal_log event.  From here on every handler that reads the erc20
+	// parameters panics: transactions doing so are delivered as well (recovered by baseapp).
+	erc20Store := g.c.Ctx().KVStore(g.c.App.GetKey(erc20types.StoreKey))
+	oldParams := erc20Store.Get(erc20types.ParamsKey)
+	pCorrupt := g.submit(g.users[2], "", fx(10_000), "overwrite erc20 params", &fxgovtypes.MsgUpdateStore{Authority: g.govAddr, UpdateStores: []fxgovtypes.UpdateStore{
+		{Space: erc20types.StoreKey, Key: hex.EncodeToString(erc20types.ParamsKey), OldValue: hex.EncodeToString(oldParams), Value: "ff"}}})
+	g.endBlock(short, "proposal: overwrite erc20 params")
+	g.voteAll(pCorrupt, yes)
+	g.endBlock(short, "votes")
+	g.endBlock(14*day+time.Second, "voting period ends: erc20 params overwritten")
+	pPanic := g.submit(g.users[4], "", fx(10_000), "register TKZ", &erc20types.MsgRegisterCoin{Authority: g.govAddr,
+		Metadata: fxtypes.GetCrossChainMetadataManyToOne("Token TKZ", "TKZ", 18)})
+	pAfter := g.submit(g.users[0], "", fx(10_000), "toggle after", &erc20types.MsgToggleTokenConversion{Authority: g.govAddr, Token: fxtypes.DefaultDenom})
+	g.endBlock(short, "proposals whose handlers read the erc20 params")
+	g.voteAll(pPanic, yes)
+	g.voteAllT(pAfter, yes, true)
+	g.endBlock(short, "votes")
+	g.endBlock(14*day+time.Second, "voting periods end: the handlers panic")
+	if prop, err := g.c.App.GovKeeper.Proposals.Get(g.c.Ctx(), pPanic); err == nil {
+		reason := "other"
+		if strings.Contains(prop.FailedReason, "PANICKED") {
+			reason = "handler-panicked"
+		}
+		g.out.Count(fmt.Sprintf("proposal-with-panicking-handler: status=%s reason=%s", prop.Status, reason))
+	}
+	cv := g.anyUser()
+	g.tx(cv, &erc20types.MsgConvertCoin{Coin: fx(1), Receiver: cv.Hex().Hex(), Sender: cv.Addr()}) // panics in DeliverTx
+	g.eth(g.ethUser(), "transfer(after-params-overwrite)", "", addr(g.users[0].Hex().Hex()), big.NewInt(99), 21000, nil)
 	from := g.anyUser()
 	g.tx(from, banktypes.NewMsgSend(from.Acc(), g.anyUser().Acc(), sdk.NewCoins(fxFrac(5))))
 	g.endBlock(short, "final")
